@@ -11,13 +11,14 @@ import subprocess
 import sys
 
 from .. import harness, run
+from . import c12_child
 from ..cbref.ast import render
 from ..gen import exprs as X
 from ..gen import progs
 
 PROPERTY = "C12"
 LEVEL = "exploration"
-RULE = ("case = a batch of programs (or image files) x option sets, executed under H hash seeds in fresh processes, "
+RULE = ("case = a batch of programs (or image files, or command-line runs that reuse one source / config / output path with changing contents) x option sets, executed under H hash seeds in fresh processes, "
         "3 times in one process, and in 2 different orders; programs are biased to what can vary (2-8 implicit arrays of "
         "mixed kinds, several string sizes, several runtime dependencies, joystick prologue, many variables to initialise); "
         "distinct = distinct (text, options); non-trivial = the item was executed under at least 2 hash seeds")
@@ -93,6 +94,19 @@ def build_items(case):
             else:
                 prog = biased_program(rng)
             items.append({"kind": "convert", "text": render(prog), "opts": OPTS[i % len(OPTS)]})
+    elif case["kind"] == "cli":
+        # command-line runs with per-name size maps: the same config path with different contents from item to item
+        names = ["A$", "B$", "S$()", "N$", "T$()"]
+        for i in range(case["n"]):
+            dims = rng.sample(names, rng.randint(1, 4))
+            ents = ",".join(nm.replace("()", "(%d)" % rng.randint(1, 5)) for nm in dims)
+            text = "10 DIM %s\n20 %s=\"X\"\n30 PRINT \"%d\"\n" % (ents, dims[0].replace("()", "(1)"), i)
+            cfg = None
+            if i % 4 != 3:
+                m = {nm: rng.choice([5, 40, 100, 200]) for nm in rng.sample(names, rng.randint(1, 4))}
+                cfg = "string_configs:\n  strname_to_size:\n" + "".join("    %s: %d\n" % (k, v) for k, v in sorted(m.items()))
+            flags = [[], ["-l"], ["-z"], ["-s", "64"], ["-D"], ["-w", "-z"]][i % 6]
+            items.append({"kind": "cli", "text": text, "cfg": cfg, "flags": flags})
     else:
         from ..img import workload
 
@@ -137,16 +151,7 @@ def run_case(case):
         idxs = list(range(len(items)))
         rng.shuffle(idxs)
         for i in idxs:
-            it = items[i]
-            if it["kind"] == "convert":
-                r = harness.convert(it["text"], **it["opts"])
-                data = r["out"] if r["ok"] else "EXC:" + str(r.get("exc"))
-                hsh = hashlib.sha256(data.encode("utf-8", "replace")).hexdigest()
-            else:
-                from ..img import decoders
-
-                r = decoders.decode(it["fmt"], bytes.fromhex(it["hex"]), it.get("args", []))
-                hsh = hashlib.sha256(repr((r["status"], r.get("exc"))).encode() + (r.get("out") or b"")).hexdigest()
+            hsh = c12_child.run_item(items[i])
             local.setdefault(i, set()).add(hsh)
     ref = results[("seed", seeds[0])]
     accepted = 0
@@ -177,7 +182,7 @@ def run_case(case):
                     if v != vals[0]:
                         cls = first_diff_class(vals[0], v)
                         break
-            obs["viols"].append({"sig": "C12/%s/%s/%s" % (it["kind"] if it["kind"] == "convert" else it["fmt"], where, cls),
+            obs["viols"].append({"sig": "C12/%s/%s/%s" % (it["kind"] if it["kind"] in ("convert", "cli") else it["fmt"], where, cls),
                                  "detail": {"item": {k: (v if k != "hex" else v[:80]) for k, v in it.items()},
                                             "hashes": {str(k): v for k, v in hs_all.items()}, "local": sorted(local[i])}})
     obs["evaluations"] = len(items) * (len(results) + 3)
@@ -193,5 +198,7 @@ def cases(tier, seed):
     hseeds = [0, 1, 2, 3, 5, 7, 11, 13] if tier == "quick" else list(range(32))
     for b in range(nb):
         yield {"kind": "convert", "seed": seed * 100003 + b, "n": 40, "hashseeds": hseeds, "sample": b == 0}
+    for b in range(1 if tier == "quick" else 8):
+        yield {"kind": "cli", "seed": seed * 100057 + b, "n": 24, "hashseeds": hseeds[:3], "sample": False}
     for b in range(2 if tier == "quick" else 8):
         yield {"kind": "decode", "seed": seed * 100019 + b, "n": 12, "hashseeds": hseeds[:4], "sample": b == 0}
